@@ -259,6 +259,54 @@ func main() {
 				c.Outcome("ok")
 			}
 		}})
+	// 3c. the address of a key object over its whole life, including after the last index and after refused calls
+	ck.Domains = append(ck.Domains, &drv.Domain{Name: "address-over-key-life", Size: 3, Chunk: 1,
+		Desc: "h=4 key objects x 3 hash functions: GetPK / GetAddress / GetLegacyAddress after construction, after every signature, after the last one, after a refused Sign on the exhausted key and after refused SetIndex calls: always the formula applied to the public key the object had at construction",
+		Run: func(c *drv.Ctx, lo, hi int64) {
+			for i := lo; i < hi; i++ {
+				c.At(i)
+				var sd [48]byte
+				copy(sd[:], fill(48, 2+int(i), c.Seed))
+				k := xmss.NewXMSSFromSeed(sd, 4, xmss.HashFunction(i), common.SHA256_2X)
+				pk0 := k.GetPK()
+				want := append([]byte{pk0[0], pk0[1], 0}, shake256(32, pk0[:])[15:]...)
+				h1 := sha256.Sum256(pk0[:])
+				pre := append([]byte{pk0[0], pk0[1], 0}, h1[:]...)
+				h2 := sha256.Sum256(pre)
+				wantL := append(pre, h2[28:]...)
+				check := func(when string) bool {
+					pk, a, la := k.GetPK(), k.GetAddress(), k.GetLegacyAddress()
+					c.Eval(1)
+					c.Nontrivial(1)
+					if pk != pk0 || !bytes.Equal(a[:], want) || !bytes.Equal(la[:], wantL) {
+						c.Fail(i, "address-changed-during-key-life", map[string]any{"when": when, "hash": i, "pk_unchanged": pk == pk0, "expected": drv.Hex(want), "observed": drv.Hex(a[:]), "legacy_equal": bytes.Equal(la[:], wantL)})
+						return false
+					}
+					return true
+				}
+				ok := check("after construction")
+				for j := 0; ok && j < 16; j++ {
+					if _, err := k.Sign([]byte("life")); err != nil {
+						c.Fail(i, "sign-failed", map[string]any{"index": j})
+						ok = false
+						break
+					}
+					ok = check(fmt.Sprintf("after signature %d", j))
+				}
+				if ok {
+					drv.Call(func() { k.Sign([]byte("one too many")) })
+					ok = check("after a refused Sign on the exhausted key")
+				}
+				if ok {
+					drv.Call(func() { k.SetIndex(3) })
+					drv.Call(func() { k.SetIndex(16) })
+					drv.Call(func() { k.SetIndex(1 << 31) })
+					drv.Call(func() { k.Sign([]byte("again")) })
+					check("after refused SetIndex / Sign calls")
+				}
+				c.Outcome("stable")
+			}
+		}})
 	// 4. real keys + dilithium
 	ck.Domains = append(ck.Domains, &drv.Domain{Name: "real-keys", Size: 3 + 2 + 4, Chunk: 1, Desc: "addresses of real XMSS keys (3 hash functions), real Dilithium keys, Dilithium pk fills",
 		Run: func(c *drv.Ctx, lo, hi int64) {
